@@ -14,8 +14,8 @@ Proofs/RoffGen.v proves every translation equal to the hand model the theorems o
 
 Nothing inside the crate is opaque.  What the functions CALL is vocabulary:
   cansi 2.2.1 (third party)   cansi::v3::categorise_text -> rf_categorise; CategorisedSlice = the pair
-                              (SGR, text) read through rf_cat_*; Color / Intensity by declaration number
-  roff 0.2.1 (third party)    Roff::new / control / text -> rf_doc_new / rf_doc_control / rf_doc_text
+                              (SGR, text) read through rf_cslice_*; Color / Intensity by declaration number
+  roff 0.2.1 (third party)    Roff::new / control / text -> rf_roff_new / rf_roff_control / rf_roff_text
                               (the document = the list of lines pushed), bold / italic / roman -> the
                               constructors of rf_inline; Roff::to_roff (the renderer) is rf_render
   anstyle, anstyle-lossy      Style::{new, fg_color, bg_color, effects, get_*}, Effects::{new, set,
@@ -105,7 +105,7 @@ def m_roff_control(em, e, rt, rty, env, k):
     def k_args(ts, tys, env1):
         if tys[0] != BYTES or tys[1] != ("list", BYTES):
             raise EmitError("Roff::control(%r, %r)" % (tys[0], tys[1]))
-        return em.write_place(N("path", segs=[root]), "(rf_doc_control %s %s %s)" % (rt, ts[0], ts[1]), env1,
+        return em.write_place(N("path", segs=[root]), "(rf_roff_control %s %s %s)" % (rt, ts[0], ts[1]), env1,
                               lambda env2: k(env2.get(root).coq, ROFF, env2))
     return em.exprs(e.args, env, k_args)
 
@@ -118,7 +118,7 @@ def m_roff_text(em, e, rt, rty, env, k):
     def k_args(ts, tys, env1):
         if tys[0] != ("list", INLINE):
             raise EmitError("Roff::text(%r)" % (tys[0],))
-        return em.write_place(N("path", segs=[root]), "(rf_doc_text %s %s)" % (rt, ts[0]), env1,
+        return em.write_place(N("path", segs=[root]), "(rf_roff_text %s %s)" % (rt, ts[0]), env1,
                               lambda env2: k(env2.get(root).coq, ROFF, env2))
     return em.exprs(e.args, env, k_args)
 
@@ -334,7 +334,7 @@ def vocab(area, consts):
     if area == "lib":
         v["type_alias"]["ColorSet"] = ("tuple", (("opt", acol), ("opt", acol)))
         v["fns"].update({
-            "Roff::new": const_fn("rf_doc_new", ROFF, "Roff::new"),
+            "Roff::new": const_fn("rf_roff_new", ROFF, "Roff::new"),
             "bold": shape("RfInBold", None, [("in", BYTES)], INLINE),
             "italic": shape("RfInItalic", None, [("in", BYTES)], INLINE),
             "roff::roman": shape("RfInRoman", None, [("in", BYTES)], INLINE),
@@ -352,10 +352,10 @@ def vocab(area, consts):
         v["enums"]["Intensity"] = {"coq": "N", "eqb": "N.eqb", "native": False, "variants": {n: str(i) for i, n in enumerate(CANSI_INTENSITY)}}
         ob = ("opt", BOOL)
         v["structs"]["CategorisedSlice"] = {"coq": "rf_cat", "var": "cat", "check": False, "fields": {
-            "text": ("rf_cat_text", None, BYTES), "fg": ("rf_cat_fg", None, ("opt", ccol)), "bg": ("rf_cat_bg", None, ("opt", ccol)),
-            "intensity": ("rf_cat_intensity", None, ("opt", cint)), "italic": ("rf_cat_italic", None, ob),
-            "underline": ("rf_cat_underline", None, ob), "blink": ("rf_cat_blink", None, ob), "reversed": ("rf_cat_reversed", None, ob),
-            "hidden": ("rf_cat_hidden", None, ob), "strikethrough": ("rf_cat_strikethrough", None, ob)}}
+            "text": ("rf_cslice_text", None, BYTES), "fg": ("rf_cslice_fg", None, ("opt", ccol)), "bg": ("rf_cslice_bg", None, ("opt", ccol)),
+            "intensity": ("rf_cslice_intensity", None, ("opt", cint)), "italic": ("rf_cslice_italic", None, ob),
+            "underline": ("rf_cslice_underline", None, ob), "blink": ("rf_cslice_blink", None, ob), "reversed": ("rf_cslice_reversed", None, ob),
+            "hidden": ("rf_cslice_hidden", None, ob), "strikethrough": ("rf_cslice_strikethrough", None, ob)}}
         v["fns"]["v3::categorise_text"] = shape("rf_categorise", None, [("in", BYTES)], ("list", CAT))
         v["methods"][("CategorisedSlice", "into")] = m_cat_into
         v["ret_types"] = {"styled_stream": ("list", STYLED)}
